@@ -26,7 +26,8 @@ class QUICOutputbuilder:
                 self.server_port = self.default_port
 
     def build(self, metadata: bool):
-        pn = self.decrypted_traffic[0].src_packet.packet_num
+        # Version Negotiation packets have no packet number
+        pn = getattr(self.decrypted_traffic[0].src_packet, "packet_num", None)
         ts = self.decrypted_traffic[0].src_packet.ts
         isserver = self.decrypted_traffic[0].src_packet.isserver
         packets = bytearray()
@@ -36,18 +37,18 @@ class QUICOutputbuilder:
                 if frame.frame_type == 0x06:
                     data = frame.crypto
                 elif frame.frame_type == 0xfe:
-                    data = frame.supported_version
+                    data = frame.payload
             if frame.frame_type in [0x08, 0x09, 0x0a, 0x0b, 0x0c, 0x0d, 0x0e, 0x0f]:
                 data = frame.stream_data
             elif data is None:
                 continue
 
-            if frame.src_packet.packet_num == pn and frame.src_packet.ts == ts:
+            if getattr(frame.src_packet, "packet_num", None) == pn and frame.src_packet.ts == ts:
                 packets.extend(data)
                 continue
             else:  # if packets number changes
                 if frame.src_packet.ts == ts:  # if same ts => same datagram
-                    pn = frame.src_packet.packet_num
+                    pn = getattr(frame.src_packet, "packet_num", None)
                     packets.extend(data)
                     continue
                 else:  # if not same ts => different datagram
@@ -77,7 +78,7 @@ class QUICOutputbuilder:
 
                     self.out.append((packet, ts))
 
-                    pn = frame.src_packet.packet_num
+                    pn = getattr(frame.src_packet, "packet_num", None)
                     ts = frame.src_packet.ts
                     isserver = frame.src_packet.isserver
                     packets = bytearray()
